@@ -368,6 +368,44 @@ void h_set_blocking (void) { PSocket *s; pboolean b; p_socket_set_blocking (s, b
 void h_set_listen_backlog (void) { PSocket *s; pint b; p_socket_set_listen_backlog (s, b); CANARY ("end"); }
 void h_set_keepalive (void) { PSocket *s; pboolean k; p_socket_set_keepalive (s, k); if (g_native == 1) CANARY ("changed via setsockopt"); else CANARY ("no change"); }
 
+/* address getters: exactly one getsockname (local) / getpeername (remote) on the socket's own live descriptor with room for any
+ * address; the result is the kernel's answer converted by the real p_socket_address_new_from_native (family, port, IPv4 address);
+ * failure = NULL with exactly one error report and nothing left allocated.  Open sockets only: on a closed socket the real code
+ * passes fd -1 to the kernel (EBADF), which the descriptor model does not accept as a call "on a live descriptor" -- not an I/O call
+ * in the sense of C10, left outside this unit and stated in the level note. */
+void h_get_addresses (void)
+{
+	PSocket *s = malloc (sizeof (PSocket));
+	__CPROVER_assume (s != NULL);
+	_Bool remote = nondet_bool ();
+	g_sock_fd = s->fd; g_fd_live = 1; g_closes = 0; g_native = 0; g_allocs = 1; g_frees = 0; g_err_calls = 0; g_new_fd_live = 0; g_getsockname_calls = 0; g_getpeername_calls = 0;
+	__CPROVER_assume (!s->closed && s->fd >= 0);
+	PSocket s0 = *s;
+	PSocketAddress *a = remote ? p_socket_get_remote_address (s, NULL) : p_socket_get_local_address (s, NULL);
+	OBL (g_native == 1 && g_getsockname_calls == (remote ? 0 : 1) && g_getpeername_calls == (remote ? 1 : 0), "address getter: exactly one native call, getsockname for the local and getpeername for the remote address");
+	OBL (g_closes == 0 && s->fd == s0.fd && s->closed == s0.closed && s->connected == s0.connected && s->blocking == s0.blocking && s->timeout == s0.timeout, "address getter: the socket is not changed");
+	if (a == NULL) {
+		OBL (g_err_calls == 1, "address getter: failure is reported exactly once");
+		OBL (g_allocs - 1 == g_frees, "address getter: nothing stays allocated on failure");
+		if (!g_name_ok) CANARY ("native call failed"); else CANARY ("kernel answer not convertible");
+	} else {
+		OBL (g_name_ok && g_err_calls == 0, "address getter: an address is returned only when the kernel gave one, without an error report");
+		const struct sockaddr *k = (const struct sockaddr *) g_name_bytes;
+		OBL ((a->family == P_SOCKET_FAMILY_INET && k->sa_family == AF_INET) || (a->family == P_SOCKET_FAMILY_INET6 && k->sa_family == AF_INET6), "address getter: the family is the kernel's");
+		if (k->sa_family == AF_INET) {
+			const struct sockaddr_in *k4 = (const struct sockaddr_in *) g_name_bytes;
+			OBL (a->port == (puint16) (((k4->sin_port & 0xff) << 8) | (k4->sin_port >> 8)) && a->addr.sin_addr.s_addr == k4->sin_addr.s_addr, "address getter: IPv4 port (host order) and address are the kernel's");
+			CANARY ("IPv4");
+		} else {
+			const struct sockaddr_in6 *k6 = (const struct sockaddr_in6 *) g_name_bytes;
+			OBL (a->port == (puint16) (((k6->sin6_port & 0xff) << 8) | (k6->sin6_port >> 8)), "address getter: IPv6 port (host order) is the kernel's");
+			CANARY ("IPv6");
+		}
+		OBL (g_allocs - 1 == g_frees + 1, "address getter: exactly the returned object is allocated");
+	}
+	OBL (p_socket_get_local_address (NULL, NULL) == NULL && p_socket_get_remote_address (NULL, NULL) == NULL && g_native == 1, "address getters of a NULL socket: NULL without a native call");
+}
+
 /* getters + NULL handling + free: a small history lemma over the real code */
 void h_getters_and_free (void)
 {
